@@ -26,3 +26,12 @@ Inductive batch_loop :=
 | AddEachOutputUnderItsKey.   (* for key, outs in worker.map(test_iter): for cn, cr in outs.items(): results.add_result(cn, key, cr) *)
 
 Inductive shutdown_step := ShutPool | ShutManager.
+
+(* what SHMPickler.reducer_override does with an object, rule by rule, in source order; anything that is
+   not a tensor or a tensor storage (NumPy arrays included) is left to the object's own reduction *)
+Inductive reduce_rule :=
+| RTensorCSR              (* torch.sparse_csr_tensor, (crow_indices, col_indices, values, shape) *)
+| RTensorCSC              (* torch.sparse_csc_tensor, (ccol_indices, row_indices, values, shape) *)
+| RTensorTorch            (* every other tensor (dense, COO coalesced or not, BSR, BSC): torch's reduce_tensor *)
+| RStorageTorch           (* torch.UntypedStorage: torch's reduce_storage *)
+| ROwnReduction.          (* return NotImplemented: the object's own __reduce_ex__(5), for ndarray NumPy's *)
